@@ -47,5 +47,11 @@ TEXTS = {
         level_text="Fault enumeration by generated outcome matrices over the real task manager, command queue, scheduler and environment state machine, driven through the public gRPC API: ~150 histories per quick run, thousands in the thorough tier, plus a slow shard for silent/dying tasks (90-120 s compiled-in timeouts). The oracle is a reference model written from the property statement. The space of shapes x outcome assignments is sampled, not exhausted.",
         level_note="Trusts the Mesos/executor simulation (built on mesos-go's own wire types); per-task 'undeliverable' is modelled as silence because a real master accepts MESSAGE calls it cannot deliver; one open known finding (non-critical undeployable task) is excluded by construction and reproduced by a canary.",
     ),
+    "C01": dict(
+        engine="simworld",
+        technique="stateful property-based testing (rapid): generated request histories with concurrent batches (first request parked by a gated probe) against the whole real core; oracle = reference FSM walked over the core's synchronously forwarded transition events joined with probe reports and executor commands (history invariant + serial-execution model)",
+        level_text="Generated-history search over the public gRPC API of the real core: ~100 (quick) to ~3700 (thorough) histories with illegal requests, failing transitions, destroy requests and 2-3 concurrent callers whose overlap is forced by the harness. The oracle is independent of the implementation's tables (documented graph, bracket non-overlap, no effects of illegal requests, ERROR after failures, DONE terminal). Exploration level: histories and interleavings are sampled.",
+        level_note="Trusts the forwarded event stream as the core's own account of its transitions (hook H3 only installs a writer; events are written synchronously by the code under test); Go-level schedules inside the core are not enumerated.",
+    ),
 }
 NA_REASONS = {}
